@@ -107,6 +107,7 @@ fn node(depth: u32, can_yield: bool, in_catch: bool, memo: &mut Memo) -> BoxedSt
                 .boxed(),
         ),
     ];
+    alts.push((2, Just(Node::ParentCheck).boxed()));
     if can_yield {
         alts.push((8, Just(Node::Yield).boxed()));
     }
@@ -201,7 +202,7 @@ fn node(depth: u32, can_yield: bool, in_catch: bool, memo: &mut Memo) -> BoxedSt
             3,
             (
                 prop_oneof![1 => prop::collection::vec(task.clone(), 1..=1), 5 => prop::collection::vec(task.clone(), 2..=2), 2 => prop::collection::vec(task, 3..=4)],
-                prop::collection::vec(any::<u32>(), 0..=12),
+                prop::collection::vec((any::<u32>(), prop::bool::weighted(0.25)), 0..=12),
             )
                 .prop_map(|(tasks, schedule)| Node::Join { tasks, schedule })
                 .boxed(),
@@ -224,6 +225,92 @@ fn program() -> BoxedStrategy<Case> {
     let mut memo = Memo::new();
     let n = node(5, false, false, &mut memo);
     prop::collection::vec(n, 1..=6).prop_map(|prog| Case { prog }).boxed()
+}
+
+const KINDS: [Kind; 4] = [Kind::Push, Kind::Root, Kind::Disabled, Kind::Current];
+const HOWS: [How; 10] = [
+    How::Guard,
+    How::With,
+    How::Call,
+    How::InFn,
+    How::InFnThread,
+    How::InFuture,
+    How::EnterTwice,
+    How::Manual,
+    How::ManualClose,
+    How::Guard,
+];
+
+/// Complete small scope: every (kind, how, storage) x (kind, how, storage, same/other instance) pair of
+/// nested frames with overlapping keys, plus one frame created up front and entered innermost.
+fn nested_pairs() -> impl Iterator<Item = Case> + Send {
+    let wraps = [Wrap::Direct, Wrap::DynBig];
+    let mut out = Vec::new();
+    for k1 in KINDS {
+        for h1 in &HOWS[..9] {
+            for w1 in wraps {
+                for k2 in KINDS {
+                    for h2 in &HOWS[..9] {
+                        for w2 in wraps {
+                            for inst2 in [0u8, 1] {
+                                let deferred = Spec {
+                                    inst: 0,
+                                    wrap: Wrap::Dyn,
+                                    kind: Kind::Push,
+                                    via_ctxt: false,
+                                    props: vec![(1, Val::I(7))],
+                                };
+                                let outer = Spec {
+                                    inst: 0,
+                                    wrap: w1,
+                                    kind: k1,
+                                    via_ctxt: false,
+                                    props: vec![(0, Val::I(1)), (1, Val::I(2))],
+                                };
+                                let inner = Spec {
+                                    inst: inst2,
+                                    wrap: w2,
+                                    kind: k2,
+                                    via_ctxt: true,
+                                    props: vec![(0, Val::I(3)), (2, Val::S("x".into()))],
+                                };
+                                out.push(Case {
+                                    prog: vec![
+                                        Node::Create(deferred),
+                                        Node::Frame {
+                                            spec: outer,
+                                            how: *h1,
+                                            body: vec![
+                                                Node::Check(Obs::Direct),
+                                                Node::Frame {
+                                                    spec: inner,
+                                                    how: *h2,
+                                                    body: vec![
+                                                        Node::Check(Obs::All),
+                                                        Node::Yield,
+                                                        Node::Enter {
+                                                            slot: 0,
+                                                            how: How::Guard,
+                                                            body: vec![Node::Check(Obs::Dyn)],
+                                                        },
+                                                        Node::Check(Obs::Direct),
+                                                    ],
+                                                },
+                                                Node::Yield,
+                                                Node::Check(Obs::Event),
+                                            ],
+                                        },
+                                        Node::Check(Obs::All),
+                                    ],
+                                });
+                            }
+                        }
+                    }
+                }
+            }
+        }
+    }
+    out.into_iter()
 }
 
 fn count(nodes: &[Node]) -> usize {
@@ -249,10 +336,11 @@ fn check(case: &Case, cx: &mut Cx) -> Res {
             let deep = stats.max_depth >= 2;
             cx.class_if(deep, "depth>=2");
             cx.class_if(stats.max_depth >= 4, "depth>=4");
-            let any = has("hop:thread-carried-frame") || has("tasks:interleaved") || has("panic:through-frame") || has("reentry") || has("second-instance");
+            let hop = has("hop:thread-carried-frame") || has("hop:suspended-future-resumed-on-other-thread");
+            let any = hop || has("tasks:interleaved") || has("panic:through-frame") || has("reentry") || has("second-instance");
             // the five required classes are counted only where the case is also deep
             if deep {
-                cx.class_if(has("hop:thread-carried-frame"), "nt:thread-hop");
+                cx.class_if(hop, "nt:thread-hop");
                 cx.class_if(has("tasks:interleaved"), "nt:interleaved-tasks");
                 cx.class_if(has("panic:through-frame"), "nt:panic-through-frame");
                 cx.class_if(has("reentry"), "nt:reentry");
@@ -301,6 +389,7 @@ fn main() {
         ] {
             s.require(c, q / 400);
         }
+        s.enumerate("nested-pairs-exhaustive", nested_pairs(), check);
         s.gen("programs", s.n(60_000, 2_000_000), program, check);
     })
 }
